@@ -667,7 +667,7 @@ def eval : Nat → Expr → XM V
       try resolve fuel parts
       catch err => if err.kind == .exec && err.sender == "" then throw { err with line := p.line, col := p.col, sender := "resolve" } else throw err
     | .arr items _ => do
-      -- in-template array: the items' *resolvers* are evaluated (filter chains skipped)
+      -- in-template array: every item is a filtered term, evaluated with its chain
       let vs ← evalArrayItems fuel items
       pure ⟨.list b!"[]*pongo2.Value" (vs.map fun v => .boxed v.v v.safe), true⟩
     | .filtered e chain _ => do
@@ -702,7 +702,7 @@ def evalArrayItems : Nat → List Expr → XM (List V)
   | _, [] => pure []
   | fuel+1, e :: es => do
     let v ← (match e with
-      | .filtered inner _ _ => eval fuel inner
+      | .filtered .. => eval fuel e
       | _ => xerr "unknown variable type is given")
     let vs ← evalArrayItems fuel es
     pure (v :: vs)
